@@ -59,7 +59,7 @@ Fixpoint frames_hold (tw : list Z -> Z) (cp : caps) (s : vstate) (t : term) (fs 
       match e with
       | FResize r c => frames_hold tw cp (do_resize s1 r c) (resize_term t r c) rest
       | _ =>
-          if grid_ok tw cp (v_next s1) then
+          if grid_ok tw tw cp (v_next s1) then
             let '(s', _) := do_frame s ops e in
             let t' := compact (interp tw t obs) in
             frame_ok cp t t' s1 && frames_hold tw cp s' t' rest
